@@ -90,7 +90,38 @@ def _m_guarded(a, k):
     a.push(0).op("SLOAD").push(2).op("ADD").push(0).op("SSTORE").op("STOP")
 
 
+def _child_runtime(c):
+    # the constant sits in the code like a Solidity immutable: PUSH32 <c> at offset 1
+    rt = Asm()
+    rt.push(c, 32).push(0).op("MSTORE").push(0x20).push(0).op("RETURN")
+    return rt.assemble()
+
+
+def _m_make(c):
+    # child = new Child(c) (one contract type, another immutable in its code); slot 3 = child
+    def emit(a, k):
+        init = initcode_for(_child_runtime(c))
+        tag = a.fresh("cinit")
+        a.push(len(init)).ref(tag).push(0x200).op("CODECOPY")
+        a.push(len(init)).push(0x200).push(0).op("CREATE").push(3).op("SSTORE").op("STOP")
+        a.mark(tag).raw(init)
+    return emit
+
+
+def _m_trip(a, k):
+    # if (child != 0) w = child.limit() > 50
+    go = a.fresh("go")
+    a.push(3).op("SLOAD").jumpi(go)
+    a.op("STOP")
+    a.label(go)
+    a.push(0x20).push(0x320).push(0).push(0).push(3).op("SLOAD").push(0xFFFF).op("STATICCALL").op("POP")
+    a.push(50).push(0x320).op("MLOAD").op("GT").push(1).op("SSTORE").op("STOP")
+
+
 MUTATORS = {
+    "mklow": ("makeLow()", "nonpayable", _m_make(1)),
+    "mkhigh": ("makeHigh()", "nonpayable", _m_make(100)),
+    "trip": ("trip()", "nonpayable", _m_trip),
     "inc": ("inc()", "nonpayable", _m_inc),
     "set": ("set(uint256)", "nonpayable", _m_set),
     "add": ("add(uint256)", "nonpayable", _m_add),
@@ -118,7 +149,7 @@ class InvCase:
     def __init__(self, ch):
         self.ch = ch
         self.k = ch.choose([2, 3, 1, 4, 0x2A], "i.k")
-        names = list(MUTATORS)
+        names = [m for m in MUTATORS if m not in ("mklow", "mkhigh", "trip")]
         n = ch.int(2, 4, "i.nmut")
         self.muts = []
         for i in range(n):
@@ -127,6 +158,11 @@ class InvCase:
                 self.muts.append(m)
         self.inv = ch.choose(INVARIANTS, "i.inv")
         self.depth = ch.choose([2, 1, 3, 0], "i.depth")
+        if ch.chance(0.15, "i.factory"):
+            # factory-style handlers: target calls that deploy contracts of one shape with different code
+            self.muts = self.muts[:1] + ch.shuffle(["mklow", "mkhigh", "trip"], "i.factory.order")
+            self.inv = ch.choose(["w_zero", "w_zero", "sum_ne_k"], "i.factory.inv")
+            self.depth = ch.choose([2, 2, 3], "i.factory.depth")
         self.with_filters = ch.chance(0.6, "i.filters")
         self.second_target = ch.chance(0.3, "i.second")
         # filters (in terms of names resolved later): lists of sender constants / 'T1','T2' / selectors
@@ -244,7 +280,14 @@ class InvCase:
                 abis.append(A.abi_item(g, outputs=["address[]"], mutability="view"))
         self.test_rt = A.build_runtime(fns)
         self.cj = A.contract_json("T", "test/T.sol", self.test_rt, abis)
-        self.bom = A.build_out_map([("T.sol", "T", self.cj), ("Target.sol", "Target", self.tcj)])
+        arts = [("T.sol", "T", self.cj), ("Target.sol", "Target", self.tcj)]
+        if "mklow" in self.muts:
+            crt = _child_runtime(0)
+            ccj = A.contract_json("Child", "src/Child.sol", crt, [A.abi_item("limit()", outputs=["uint256"], mutability="view")],
+                                  creation=initcode_for(crt), ast_id=30)
+            ccj["deployedBytecode"]["immutableReferences"] = {"7": [{"start": 1, "length": 32}]}
+            arts.append(("Child.sol", "Child", ccj))
+        self.bom = A.build_out_map(arts)
 
     # ---------------------------------------------------------------- reference: filters as Foundry specifies
     def admissible(self, taddrs):
@@ -303,7 +346,8 @@ class InvCase:
         w2 = w.copy()
         # the sender of an invariant call is arbitrary, and so is its balance: whatever value it sends, it can afford
         w2.balance[sender] = max(w2.bal(sender), 10, value)
-        evm = RefEVM(w2, block={**DEFAULT_BLOCK, "timestamp": ts}, addr_oracle=lambda *a: 0xDEAD02)
+        # contracts created by the call get an address no other account has (halmos: the next free 0xaaaa.... address)
+        evm = RefEVM(w2, block={**DEFAULT_BLOCK, "timestamp": ts}, addr_oracle=lambda *a: 0xDEAD0000 + len(w2.code))
         fr = evm.run_tx(target, sender, sender, value, data, transfer_top=True)
         if fr.error is not None:
             panicked = fr.error == "revert" and fr.output[:4] == bytes.fromhex("4e487b71") and len(fr.output) == 36
@@ -338,7 +382,7 @@ class InvCase:
                         if self.invariant_broken(w2, ts + dt):
                             return ("invariant", seq + [step])
                         key = (tuple(sorted((a, tuple(sorted(st.items()))) for a, st in w2.storage.items())),
-                               tuple(sorted(w2.balance.items())), ts + dt)
+                               tuple(sorted(w2.balance.items())), tuple(sorted(w2.code.items())), ts + dt)
                         if key in seen:
                             continue
                         seen.add(key)
